@@ -114,6 +114,14 @@ def run(e: Engine, rep: Report):
              'a value (RFC 1870) gives None, and the TypeError of int(None) '
              'is neither a result nor a relay error')
     n22(e, rep)
+    rep.rule('N23', 'a domain is declared to have no usable records (the '
+             'permanent 550 5.1.2) on the resolver\'s answer alone: the '
+             'test that guards `raise ValueError` in MxRecord.get reads the '
+             'cached answer itself, not a list narrowed by something that '
+             'changes at run time (hosts that were down a moment ago, the '
+             'attempt number) - a domain whose exchangers are all '
+             'momentarily unreachable is a transient failure')
+    n23(e, rep)
     rep.floor('N1', 9, 'relay implementations / set sites')
     rep.floor('N2', 12, 'client command sites')
 
@@ -2533,3 +2541,66 @@ def n22(e: Engine, rep: Report):
         rep.ok('N22', 'slimta.relay.smtp', 'no int() / float() of an '
                'advertised extension parameter in %d module(s)' % len(mods),
                reason='nothing converted by the caller', nontrivial=False)
+
+
+# ---------------------------------------------------------------------- N23
+def n23(e: Engine, rep: Report):
+    MXR = 'slimta.relay.smtp.mx.MxRecord'
+    c = e.p.classes.get(MXR)
+    if c is None or 'get' not in c.methods:
+        rep.error('anchor vanished: %s.get' % MXR)
+        return
+    f = c.methods['get']
+    rep.functions.add(f.qname)
+
+    def narrowing(v):
+        for y in ast.walk(v):
+            if isinstance(y, (ast.ListComp, ast.GeneratorExp, ast.SetComp)) \
+                    and any(g.ifs for g in y.generators):
+                return y
+            if isinstance(y, ast.Call) and isinstance(y.func, ast.Name) and \
+                    y.func.id in ('filter', 'takewhile', 'dropwhile'):
+                return y
+            if isinstance(y, ast.Subscript) and \
+                    isinstance(y.slice, ast.Slice):
+                return y
+        return None
+    n = 0
+    for t in walk_own(f.node):
+        if not isinstance(t, ast.If):
+            continue
+        if not any(isinstance(r, ast.Raise) and r.exc is not None and
+                   'ValueError' in ast.unparse(r.exc)
+                   for b in t.body for r in ast.walk(b)):
+            continue
+        n += 1
+        rep.evaluations += 1
+        bad = None
+        for nm in ast.walk(t.test):
+            if not isinstance(nm, ast.Name) or nm.id == 'self':
+                continue
+            if nm.id in f.params:
+                bad = (nm.id, 'a parameter of get()')
+                continue
+            for a in walk_own(f.node):
+                tg = a.targets if isinstance(a, ast.Assign) else (
+                    [a.target] if isinstance(a, ast.AugAssign) else [])
+                if any(isinstance(x, ast.Name) and x.id == nm.id
+                       for x in tg):
+                    y = narrowing(a.value)
+                    if y is not None:
+                        bad = (nm.id, '`%s`' % ' '.join(
+                            ast.unparse(y).split())[:60])
+        rep.check(bad is None, 'N23', f.qname,
+                  '`%s` judges the resolver\'s answer'
+                  % ' '.join(ast.unparse(t.test).split())[:50],
+                  'the "no usable DNS records" verdict (ValueError, which '
+                  'MxSmtpRelay.attempt turns into the permanent 550 5.1.2) '
+                  'is reached on `%s`, which is %s and not the cached '
+                  'answer: when the filter leaves nothing although the '
+                  'domain has records, mail that a retry would deliver is '
+                  'bounced' % (bad[0] if bad else '', bad[1] if bad else ''),
+                  loc=f.loc(t), reason='reads the cached answer only')
+    if n == 0:
+        rep.ok('N23', f.qname, 'get() raises no ValueError under a test',
+               reason='nothing to judge', nontrivial=False)
